@@ -23,7 +23,8 @@ LEVEL = "fault_enumeration"
 RULE = ("(a)/(b): each evaluation is one mutant (bit flip, burst, truncation point) of a generated message set, "
         "enumerated exhaustively per set for single bits and truncation points; (c): one byte string given to one "
         "decoder. distinct = distinct (decoder, mutated bytes); non-trivial = the mutant differs from the original "
-        "/ the byte string is non-empty")
+        "/ the byte string is non-empty. (b) end to end: one real Consumer facing a record larger than its buffer "
+        "(sizes drawn around the buffer, 1 MiB and the maximum) through the real client and decoder")
 ASSUMPTIONS = ["CRC-32 detects every single-bit error and every burst of <= 32 bits that lies inside the bytes the "
                "CRC covers; bursts straddling the stored-CRC field and the body are not generated (the CRC precedes "
                "the body on the wire, so such an error is not a burst in codeword order)",
@@ -34,7 +35,8 @@ ASSUMPTIONS = ["CRC-32 detects every single-bit error and every burst of <= 32 b
                "python-snappy absent: snappy paths raise NotImplementedError, which counts as an exception"]
 REACH_MIN = {"bit_flips": {"quick": 100000, "thorough": 3000000}, "bursts": {"quick": 8000, "thorough": 200000},
              "truncations": {"quick": 20000, "thorough": 600000}, "arbitrary": {"quick": 15000, "thorough": 600000},
-             "hostile_counts": {"quick": 4000, "thorough": 100000}}
+             "hostile_counts": {"quick": 4000, "thorough": 100000},
+             "consumer_oversized_runs": {"quick": 40, "thorough": 1000}}
 
 STEP_A = 60
 MEM_B = 64
@@ -53,6 +55,10 @@ def cases(tier, seed):
     n_arb = {"quick": 32, "thorough": 960}[tier]
     for i in range(n_arb):
         out.append(dict(kind="arbitrary", seed=seed * 27449 + i, n=700))
+    # the consumer half of the sentence ("the consumer then enlarges its buffer rather than skipping"), end to end
+    n_cons = {"quick": 48, "thorough": 1200}[tier]
+    for i in range(n_cons):
+        out.append(dict(kind="consumer", seed=seed * 1000003 + 1250000 + i))
     return out
 
 
@@ -470,6 +476,10 @@ def run(spec):
     res = Result()
     if spec["kind"] == "corrupt":
         run_corrupt(spec, res)
+    elif spec["kind"] == "consumer":
+        from . import c14
+        c14.run_growth(spec, res)
+        res.hit("consumer_oversized_runs")
     else:
         run_arbitrary(spec, res)
     return res
